@@ -14,12 +14,16 @@ INVARIANT DelimPrefix
 INVARIANT DelimDone
 INVARIANT WriteRead
 INVARIANT AppendRead
+INVARIANT ConcatLines
 INVARIANT ArffSound
 INVARIANT CsvSound
 INVARIANT SvmSound
 INVARIANT ArffReuse
 INVARIANT CsvReuse
 INVARIANT SvmReuse
+INVARIANT ArffRepeat
+INVARIANT CsvRepeat
+INVARIANT SvmRepeat
 INVARIANT DelimEmit
 INVARIANT ArffEmit
 INVARIANT CsvEmit
